@@ -15,7 +15,7 @@ Plan gen_c17(uint64_t seed, int tier)
   p.cfg["fo"] = fo;
   gen_sched(p, r);
   gen_backend(p, r);
-  int nsinks = static_cast<int>(r.range(2, 3));
+  int nsinks = static_cast<int>(r.range(2, 4));
   int nslots = static_cast<int>(r.range(2, 3));
   p.cfg["nsinks"] = nsinks;
   p.cfg["nloggers"] = nslots;
@@ -48,9 +48,25 @@ Plan gen_c17(uint64_t seed, int tier)
         ops.push_back(Op{OP_LOG, lg, static_cast<int64_t>(r.below(4)), r.range(2, 8), static_cast<int64_t>(r.next() >> 8),
                          static_cast<int64_t>(r.below(60)), 0});
       }
-      else if (c < 90)
+      else if (c < 87)
       {
         ops.push_back(Op{OP_GET_LOGGER, lg});
+      }
+      else if (c < 93)
+      {
+        // look a sink of this (valid) logger up by name
+        std::vector<int64_t> ss;
+        for (int s2 = 0; s2 < nsinks; ++s2)
+        {
+          if ((mask[static_cast<size_t>(lg)] >> s2) & 1)
+          {
+            ss.push_back(s2);
+          }
+        }
+        if (!ss.empty())
+        {
+          ops.push_back(Op{OP_GET_SINK, ss[r.below(static_cast<uint32_t>(ss.size()))]});
+        }
       }
       else
       {
@@ -202,6 +218,7 @@ Verdict judge_c17(Plan const& p, History const& h, RunInfoLite const& ri)
     return d;
   }
   int nsinks = static_cast<int>(p.get("nsinks", 1));
+  uint64_t sink_lookups = 0;
   uint64_t removals = 0, blocking = 0, recreated = 0, lookups = 0, sinks_destroyed = 0, sinks_kept = 0;
   // per slot: current mask (0 = removed)
   std::map<int, int64_t> cur_mask;
@@ -247,6 +264,14 @@ Verdict judge_c17(Plan const& p, History const& h, RunInfoLite const& ri)
       {
         return violation("lookup_not_idempotent", "looking up / re-creating valid logger slot " + std::to_string(e.a) +
                                                     (e.b ? " returned a different object" : " found nothing"));
+      }
+      break;
+    case EV_GET_SINK:
+      ++sink_lookups;
+      if (!e.b || !e.c)
+      {
+        return violation("sink_lookup_not_idempotent", "looking up sink " + std::to_string(e.a) + " by name " +
+                                                         (e.b ? "returned a different object than the one in use" : "found nothing although it is in use"));
       }
       break;
     case EV_NOTE:
@@ -308,6 +333,7 @@ Verdict judge_c17(Plan const& p, History const& h, RunInfoLite const& ri)
   v.probes["blocking_removals"] = blocking;
   v.probes["recreations_after_removal"] = recreated;
   v.probes["lookups_and_idempotent_creates"] = lookups;
+  v.probes["sink_lookups_by_name"] = sink_lookups;
   v.probes["sinks_destroyed"] = sinks_destroyed;
   v.probes["sinks_kept"] = sinks_kept;
   return v;
